@@ -96,7 +96,7 @@ func sanitizersForAttributeValue(c context) ([]string, error) {
 	}
 	// If conditional branches produced different static values the value kept in
 	// c.attr.value may be the empty one although another branch is not empty.
-	if sc0.isEnum() && (c.attr.value != "" || c.attr.ambiguousValue) {
+	if sc0.isEnum() && (c.attr.value != "" || c.attr.ambiguousValue || c.attr.afterAction) {
 		return nil, fmt.Errorf("partial substitutions are disallowed in the %q attribute value context of a %q element", c.attr.name, c.element.name)
 	}
 	if sc0 == sanitizationContextStyle && c.attr.value != "" {
@@ -163,6 +163,26 @@ func reverse(s []string) []string {
 		s[head], s[tail] = s[tail], s[head]
 	}
 	return s
+}
+
+// enumAttrVal reports whether the attribute value that c is in takes enumerated values
+// under one of the names that the element and the attribute may have.
+func enumAttrVal(c context) bool {
+	elems, attrs := c.element.names, c.attr.names
+	if len(elems) == 0 {
+		elems = []string{c.element.name}
+	}
+	if len(attrs) == 0 {
+		attrs = []string{c.attr.name}
+	}
+	for _, elem := range elems {
+		for _, attr := range attrs {
+			if sc, err := sanitizationContextForAttrVal(elem, attr, c.linkRel); err == nil && sc.isEnum() {
+				return true
+			}
+		}
+	}
+	return false
 }
 
 // sanitizationContextForAttrVal returns the sanitization context for attr when it
